@@ -26,23 +26,28 @@ type Error struct {
 // position of t. Token, Line and Column belong together: an error that already has
 // a position keeps it and is not given the token of another place, and an error that
 // names no source is given the one t stands in.
+//
+// The error is completed on a copy: it may have been handed out by a filter, a tag or a
+// macro of the user, who may return one and the same value every time something fails
+// (and from several goroutines).
 func (e *Error) updateFromTokenIfNeeded(template *Template, t *Token) *Error {
-	if e.Template == nil {
-		e.Template = template
+	c := *e
+	if c.Template == nil {
+		c.Template = template
 	}
 
-	if t == nil || e.Token != nil || e.Line > 0 {
-		return e
+	if t == nil || c.Token != nil || c.Line > 0 {
+		return &c
 	}
 
-	e.Token = t
-	e.Line = t.Line
-	e.Column = t.Col
-	if e.Filename == "" {
-		e.Filename = t.Filename
+	c.Token = t
+	c.Line = t.Line
+	c.Column = t.Col
+	if c.Filename == "" {
+		c.Filename = t.Filename
 	}
 
-	return e
+	return &c
 }
 
 // Returns a nice formatted error string.
